@@ -17,7 +17,10 @@ def showRes (r : Res (List Val)) : String :=
   match r with
   | .ok st => showStack st
   | .failed v => "failed | " ++ michToLine (tyToMich (typeOf v)) ++ " ; " ++ michToLine (valToMich v)
-  | .err => "err"
+  | .rtfail => "rtfail"
+  | .oof => "oof"
+  | .stuck => "stuck"
+  | .offguard => "offguard"
 
 /-- `PUSH` parses its literal with `from_micheline_value`, which runs `check_constraints` (no duplicates, `keys ==
 sorted(keys)`) on every set / map literal; mirrored here, at the boundary, with the runtime `__eq__` / `__lt__` of the
